@@ -3,6 +3,7 @@ package graph
 import (
 	"encoding/json"
 	"strconv"
+	"strings"
 
 	"github.com/99designs/gqlgen/zzsym"
 )
@@ -73,6 +74,12 @@ var fedShapes = []fedShape{
 		want:    func(i int) string { return `{"__typename":"Alpha","id":"id-of-n` + sfx(i) + `","name":"n` + sfx(i) + `"}` },
 		lookups: func(i int) string { return "AlphaByName:n" + sfx(i) },
 	},
+	{ // 11 batch type whose key cannot be unmarshalled: the batch it belongs to fails as a whole (documented batch semantics)
+		rep:     func(i int) map[string]any { return map[string]any{"__typename": "Beta", "id": []any{"x"}} },
+		want:    func(i int) string { return "null" },
+		multi:   "BetaByIDs",
+		batchID: func(i int) string { return "!bad" },
+	},
 	{ // 10 nested key is not an object
 		rep:  func(i int) map[string]any { return map[string]any{"__typename": "Gamma", "owner": "notamap"} },
 		want: func(i int) string { return "null" },
@@ -129,6 +136,9 @@ func Harness_C20_entities() {
 			if f, decided := w.fault[key]; decided && f != 0 {
 				want = "null" // this representation's own lookup (or its batch) failed
 			}
+		}
+		if s.multi != "" && strings.Contains(batch[s.multi], "!bad") {
+			want = "null" // a malformed key fails the batch it is part of
 		}
 		if want == "null" {
 			failures++
